@@ -3,6 +3,7 @@ import GoCrypt.Props.C10
 import GoCrypt.Gen.Flow
 import GoCrypt.Props.EndToEnd
 import GoCrypt.Props.FlowModel
+import GoCrypt.Props.KdfIR2
 
 /-!
 # C12 — generated hashes are canonical and Params, Key and Check agree with each other
@@ -114,4 +115,14 @@ theorem defaults_are_documented :
 #print axioms GoCrypt.FlowModel.flowParams_eq_model_bcrypt
 #print axioms GoCrypt.FlowModel.flowParams_eq_model_argon2
 #print axioms GoCrypt.FlowModel.parameter_names
+-- every scheme's Key, after its guard clauses, as regenerated from the source (Props/KdfIR2.lean) computes Scheme.<s>.derive — the derive of the pipeline model the theorems above are about
+#print axioms GoCrypt.KdfIR2.desext_key_tail_ir_eq_derive
+#print axioms GoCrypt.KdfIR2.des_key_tail_ir_eq_derive
+#print axioms GoCrypt.KdfIR2.nthash_key_tail_ir_eq_derive
+#print axioms GoCrypt.KdfIR2.md5_key_tail_ir_eq_derive
+#print axioms GoCrypt.KdfIR2.sha256_key_tail_ir_eq_derive
+#print axioms GoCrypt.KdfIR2.sha512_key_tail_ir_eq_derive
+#print axioms GoCrypt.KdfIR2.sha1_key_tail_ir_eq_derive
+#print axioms GoCrypt.KdfIR2.sunmd5_key_tail_ir_eq_derive
+#print axioms GoCrypt.KdfIR2.bcrypt_key_tail_ir_eq_derive
 end GoCrypt.C12
